@@ -152,7 +152,12 @@ def run_history(case):
             return recs
         with open(out, "rb") as fh:
             raw = fh.read()
-        if case.get("extra_keys"):
+        decodable = True
+        try:
+            bdecode_strict(raw)
+        except Exception:
+            decodable = False       # what was just written is not bencoding: the record of this step says so
+        if case.get("extra_keys") and decodable:
             # as if written by another tool: keys this tool never writes, at the top level and in info
             from .core import bencode
             rootn, _, _ = bdecode_strict(raw)
